@@ -64,6 +64,13 @@ Qed.
 Lemma take_drop fl l : take_ok fl l ++ drop_ok fl l = l.
 Proof. induction l as [|t l IH]; [reflexivity|]. cbn [take_ok drop_ok]. destruct (fl t); [reflexivity|]. cbn [app]. now rewrite IH. Qed.
 
+(* a failing step of the list and everything after it belong to the rest *)
+Lemma drop_ok_from fl a F r : fl F = true -> forall t, In t (F :: r) -> In t (drop_ok fl (a ++ F :: r)).
+Proof.
+  intros HF t Ht. induction a as [|y a IH]; cbn [app drop_ok]; [now rewrite HF|].
+  destruct (fl y); [right; apply in_or_app; now right|exact IH].
+Qed.
+
 (* ================================================================== runs without an executed failing step *)
 Section Sim.
 Variable cm : xrule -> list rcmd.
